@@ -22,6 +22,9 @@ pub enum Mode {
     /// C10: request #0 is large (70-260 KiB); the peer must receive every request complete,
     /// well-formed and exactly once
     BigRequest,
+    /// C14: like Coalesced, plus one hostile message (not UTF-8, not XML, cut short, empty) somewhere in
+    /// the stream: no call may wait for ever, and whoever gets a value gets its own reply
+    HostileCoalesced,
 }
 
 pub fn run(ctx: &mut Ctx) -> Verdict {
@@ -58,7 +61,12 @@ pub fn run_mode(ctx: &mut Ctx, mode: Mode) -> Verdict {
         }
     } else {
         // one byte stream, 0-3 cuts anywhere: with no cut every reply arrives in one delivery
-        let stream: Vec<u8> = order.iter().flat_map(|&k| reply_msg(k + 1, 110 + ctx.pick(300))).collect();
+        let mut msgs: Vec<Vec<u8>> = order.iter().map(|&k| reply_msg(k + 1, 110 + ctx.pick(300))).collect();
+        if mode == Mode::HostileCoalesced {
+            let hostile: &[u8] = *ctx.tape.choose(&[&b"\xff\xfe\x00garbage\x80]]>]]>"[..], b"<rpc-reply]]>]]>", b"not xml at all]]>]]>", b"]]>]]>", b"<rpc-reply message-id=\"1\" xmlns=\"urn:ietf:params:xml:ns:netconf:base:1.0\"><data>]]>]]>", b"\n]]>]]>"]);
+            msgs.insert(ctx.pick(msgs.len() + 1), hostile.to_vec());
+        }
+        let stream: Vec<u8> = msgs.concat();
         let mut cuts: Vec<usize> = (0..ctx.tape.weighted(&[3, 3, 2, 1])).map(|_| 1 + ctx.pick(stream.len() - 1)).collect();
         cuts.sort_unstable();
         cuts.dedup();
@@ -100,8 +108,13 @@ pub fn run_mode(ctx: &mut Ctx, mode: Mode) -> Verdict {
     steps.push(Step::Chunk(reply_msg(n + 1, 130)));
     steps.push(Step::SleepMs(2));
     let big_request = if mode == Mode::BigRequest { 70_000 + ctx.pick(190_000) } else { 0 };
-    let label = format!("{mode:?} (request #0 carries {big_request} extra bytes): {n} requests, delivery order {order:?}, {} chunks {:?}, drops (before chunk, request) {drops:?}", chunks.len(), chunks.iter().map(Vec::len).collect::<Vec<_>>());
-    let sc = Scenario { kind, steps, requests: n, extra_request: true, label, bad_credentials: false, password: crate::rsim::SSH_PASSWORD.to_string(), big_request };
+    // half of the large requests meet small socket buffers and (TLS) a peer that reads slowly
+    let slow_peer = mode == Mode::BigRequest && ctx.pick(2) == 1;
+    if slow_peer {
+        ctx.count("fault.small_socket_buffers_and_slow_peer");
+    }
+    let label = format!("{mode:?} (request #0 carries {big_request} extra bytes, slow peer {slow_peer}): {n} requests, delivery order {order:?}, {} chunks {:?}, drops (before chunk, request) {drops:?}", chunks.len(), chunks.iter().map(Vec::len).collect::<Vec<_>>());
+    let sc = Scenario { kind, steps, requests: n, extra_request: true, label, bad_credentials: false, password: crate::rsim::SSH_PASSWORD.to_string(), big_request, slow_peer };
     ev!(ctx, "scenario {}/{}", kind.name(), sc.label);
     let o = run_scenario(ctx, &sc);
     ev!(ctx, "establish {:?} results {:?} dropped {:?} extra {:?} harness {:?}", o.establish, o.results, o.dropped, o.extra, o.harness_error);
@@ -149,6 +162,8 @@ pub fn run_mode(ctx: &mut Ctx, mode: Mode) -> Verdict {
         let dropped = o.dropped.contains(&k);
         match r {
             Res::Ok(v) if v.contains(&tag) => {}
+            // the caller that was reading when the hostile message arrived fails; that is the bounded-time error the property asks for
+            Res::Err(_) if mode == Mode::HostileCoalesced => ctx.count("outcome.call_failed_on_hostile_message"),
             Res::Ok(v) => return Verdict::violation(format!("{c_wrong}/{t}"), format!("{}: request #{k} resolved to {v}", sc.label)),
             Res::Hang if dropped => {}
             Res::Err(e) => return Verdict::violation(format!("{c_failed}/{t}"), format!("{}: request #{k} failed{after}: {e}", sc.label)),
@@ -157,6 +172,7 @@ pub fn run_mode(ctx: &mut Ctx, mode: Mode) -> Verdict {
     }
     match &o.extra {
         Some(Res::Ok(v)) if v.contains(&format!("TAG-{}-", n + 1)) => {}
+        Some(Res::Err(_)) if mode == Mode::HostileCoalesced => {}
         other => return Verdict::violation(format!("{c_unusable}/{t}"), format!("{}: the request issued afterwards resolved to {other:?}{after}", sc.label)),
     }
     Verdict::Pass
